@@ -9,6 +9,7 @@ A case {"kind": "hist", "ops": [...]} is a small program run on the real classes
   ["call", name, ref, M, [val…]]     name = ref.to<M>Coords(*vals)          M = "ECEF" | "ENU" | "GEO" | "PROJ"
   ["mk", [ref…], val]                a Track whose observations hold these very objects, Track(base=val) (tracks are numbered 0, 1, …)
   ["tc", k, M, val]                  track k .to<M>Coords(val)
+  ["tif", k, name]                   name = track k .toENUCoordsIfNeeded()   (the returned base, a new object; name may be None)
   val = None | ["S", n] (an int) | ref;     ref = ["o", name] | ["tp", k, i] (the object that is now position i of track k)
                                                   | ["tb", k] (what Track.base of track k is now)
 
@@ -178,6 +179,22 @@ class Static:
                 self.dead = True
                 return
             t["kinds"], t["base"] = ks, nb
+        elif op[0] == "tif":
+            if not (isinstance(op[1], int) and 0 <= op[1] < len(self.tracks)):
+                self.ok = False
+                return
+            t = self.tracks[op[1]]
+            if not t["kinds"]:
+                self.dead = True
+                return
+            if t["kinds"][0] == "G":
+                ks = [conv_kind(k, "ENU", ["G"]) for k in t["kinds"]]
+                if any(k is None for k in ks):
+                    self.dead = True
+                    return
+                t["kinds"], t["base"] = ks, "G"
+                if op[2] is not None:
+                    self.objs[op[2]] = "G"
         else:
             self.ok = False
 
@@ -287,6 +304,13 @@ class Runner:
                     else:
                         getattr(t, METH[op[2]])(val(op[3]))
                     tk = trk(t)
+                elif op[0] == "tif":
+                    t = tracks[op[1]]
+                    r = t.toENUCoordsIfNeeded()
+                    res = None if r is None else see(r)
+                    if r is not None and op[2] is not None:
+                        named[op[2]] = r
+                    tk = trk(t)
                 else:
                     raise ValueError(op)
             except BaseException as e:
@@ -337,6 +361,11 @@ def request(case):
             toks.append("mk:%s:%s" % ("/".join(val(r) for r in op[1]) or "-", val(op[2])))
         elif op[0] == "tc":
             toks.append("tc:%d:%s:%s" % (op[1], op[2], val(op[3])))
+        elif op[0] == "tif":
+            toks.append("tif:%d" % op[1])
+            if op[2] is not None:
+                ordinal[op[2]] = cnt
+            cnt += 1
     return "C14.hist " + " ".join(toks)
 
 
@@ -443,6 +472,8 @@ def opname(op):
         return "%s = %s.%s(%s)" % (op[1], sv(op[2]), METH[op[3]], ", ".join(sv(v) for v in op[4]))
     if op[0] == "tc":
         return "track%d.%s(%s)" % (op[1], METH[op[2]], sv(op[3]))
+    if op[0] == "tif":
+        return "track%d.toENUCoordsIfNeeded()" % op[1]
     return str(op)
 
 
@@ -623,6 +654,33 @@ class Oracle:
                 r = self.track_conv(j, op, st, out)
                 if r is not None:
                     return None if r == "stop" else r
+            if op[0] == "tif":
+                t = self.tracks[op[1]]
+                if not t["pts"]:
+                    return None
+                kinds = {self.vals[p][0] for p in t["pts"]}
+                if len(kinds) != 1:
+                    return None
+                if kinds == {"G"}:
+                    first = list(self.vals[t["pts"][0]][1])
+                    r = self.track_conv(j, op, st, out, arg=("V", "G", first))
+                    if r is not None:
+                        return None if r == "stop" else r
+                    # what the method returns: the base it used, a copy of the first position
+                    if st["res"] is None or st["res"] < n0 or self.vals[st["res"]][0] != "G" or \
+                            geo_diff(self.vals[st["res"]][1], first):
+                        return "op %d, %s returns %r, expected a copy of the first position %r (the base used)" % (
+                            j, opname(op), None if st["res"] is None else self.vals[st["res"]], first)
+                    if op[2] is not None:
+                        self.named[op[2]] = st["res"]
+                else:
+                    if st is None:
+                        return "op %d, %s on a track of %s positions failed with %s" % (j, opname(op), kinds, out["err"])
+                    m = self.frame_clause(j, opname(op), st)
+                    if m:
+                        return m
+                    if st["new"] or st["trk"][0] != t["pts"]:
+                        return "op %d, %s on a track that is not in geographic coordinates changed it: %r" % (j, opname(op), st)
         return None
 
     def frame_clause(self, j, name, st):
@@ -632,7 +690,7 @@ class Oracle:
                 j, name, c[0], self.vals[c[0]], c[1:])
         return None
 
-    def track_conv(self, j, op, st, out):
+    def track_conv(self, j, op, st, out, arg=None):
         t = self.tracks[op[1]]
         name = opname(op)
         if not t["pts"]:
@@ -641,8 +699,8 @@ class Oracle:
         if len(kinds) != 1:
             return "stop"                 # mixed classes: outside the property
         k0 = kinds.pop()
-        m = op[2]
-        arg = self.val(op[3])
+        m = op[2] if op[0] == "tc" else "ENU"
+        arg = arg or self.val(op[3])
         used, noop, rec = None, False, None
         if m in ("ECEF", "GEO"):
             if (m == "ECEF" and k0 == "E") or (m == "GEO" and k0 == "G"):
@@ -898,6 +956,11 @@ class Builder:
             return
         k0 = t["kinds"][0]
         S = ["S", 2154]
+        if rng.random() < (0.12 if k0 == "G" else 0.03):
+            self.emit(["tif", k, self.name() if k0 == "G" else None])
+            if k0 == "G":
+                self.use(["o", "x%d" % self.n])
+            return
         if k0 == "G":
             m = rng.choice(["ENU", "ENU", "ENU", "ECEF", "GEO"] + (["PROJ", "ENU_S"] if self.france else []))
             if m == "ENU":
@@ -1017,7 +1080,18 @@ def rand_hist(P, rng):
         b.tc(t, "ENU", B)
         if rng.random() < 0.5:
             b.tc(t, "GEO", rng.choice([None, B]))
-    elif r < 0.64:
+    elif r < 0.62:
+        # toENUCoordsIfNeeded: the caller updates the base he was handed back, then comes back / goes again
+        t = b.mk("G", rng.choice([1, 2, 3]), None, shared=rng.random() < 0.3)
+        nm = b.name()
+        b.emit(["tif", t, nm])
+        B = ["o", nm]
+        if rng.random() < 0.7:
+            b.update(B if rng.random() < 0.7 else b.last_refs[0])
+        b.tc(t, rng.choice(["GEO", "ECEF"]), rng.choice([None, None, B]))
+        if rng.random() < 0.5:
+            b.emit(["tif", t, None])
+    elif r < 0.67:
         # conversions to the class the object already has: copies
         g = b.new(rng.choice("GE"))
         k = b.s.val_kind(g)
